@@ -251,7 +251,10 @@ class State:
         li = len(self.solver_builds)
         st = SolverStub(li, ci(layer_slices), ci(num_ys_dbl), y0_ptr)
         self.solver_builds.append(dict(layer=li, type=layer_type, static=is_static, incomp=is_incomp, G=G_, frequency=freq_, degree=deg_, span=span,
-                                       radius0=r_ptr.get(0), num_ys_dbl=num_ys_dbl, rest=rest))
+                                       radius0=r_ptr.get(0), num_ys_dbl=num_ys_dbl, rest=rest, nslices=ci(layer_slices),
+                                       radius=[r_ptr.get(i) for i in range(ci(layer_slices))], density=[d_ptr.get(i) for i in range(ci(layer_slices))],
+                                       gravity=[g_ptr.get(i) for i in range(ci(layer_slices))], bulk=[k_ptr.get(i) for i in range(ci(layer_slices))],
+                                       shear=[s_ptr.get(i) for i in range(ci(layer_slices))]))
         return st
 
     def solver_attr(self, st, name):
